@@ -124,7 +124,7 @@ func Digest(r io.Reader, hashFunc crypto.Hash) (*CabinetDigest, error) {
 	}
 	_ = binary.Write(dw, binary.LittleEndian, sb)
 	// save the updated header for writing out later
-	patched := bytes.NewBuffer(make([]byte, 0, outHeader.OffsetFiles))
+	patched := new(bytes.Buffer)
 	_ = binary.Write(patched, binary.LittleEndian, outHeader)
 	_ = binary.Write(patched, binary.LittleEndian, outReserveHeader)
 	_ = binary.Write(patched, binary.LittleEndian, outSigHeader)
@@ -144,10 +144,14 @@ func Digest(r io.Reader, hashFunc crypto.Hash) (*CabinetDigest, error) {
 	}
 	if cab.SignatureHeader != nil {
 		// read old signature for verification purposes
-		cab.Signature = make([]byte, cab.SignatureHeader.SignatureSize)
-		if _, err := io.ReadFull(r, cab.Signature); err != nil {
+		// the size comes from the file: read what is really there instead of allocating it up front
+		sig, err := io.ReadAll(io.LimitReader(r, int64(cab.SignatureHeader.SignatureSize)))
+		if err != nil {
 			return nil, err
+		} else if len(sig) < int(cab.SignatureHeader.SignatureSize) {
+			return nil, io.ErrUnexpectedEOF
 		}
+		cab.Signature = sig
 	}
 	// ensure there is nothing after the cabinet and signature
 	if _, err := r.Read(make([]byte, 1)); err == nil {
